@@ -1,4 +1,5 @@
 import SFV.Proofs.HwCompile
+import SFV.Proofs.HwMerge
 
 /-!
 # C12 — hardware compilation conforms to the device and preserves the experiment
@@ -100,6 +101,45 @@ theorem assert_modes_monotone :
 
 example : assertModesDict [(.pnr, 2), (.homodyne, 1), (.pnr, 1)] 3 1 0 = none ∧
     assertModesDict [(.pnr, 2), (.homodyne, 1), (.pnr, 1)] 2 1 0 = some .pnr := by decide +kernel
+
+/-! ## Xunitary: merging repeated two-mode squeezers -/
+
+/-- **s2_merge_spec.**  For EVERY list `B` of `S2gate` commands (any number of pairs carrying any number of
+repeated squeezers, in any order) the merge loop of `Xunitary.compile` (pop / insert list surgery, positions
+recomputed after every merge) terminates within `len(B)` iterations and
+* either returns a list with exactly one squeezer per pair, the pairs in the order of their first
+  occurrence in `B` (so commands on other pairs keep their relative order), each squeezer carrying the sum of
+  the `r` of all commands on its pair and their common phase,
+* or raises a `CircuitError`, and then two commands on one pair really have different phases;
+when `len(B) ≤ half` the list is returned untouched.  No other error (index error, exhausted loop) is possible. -/
+theorem s2_merge_spec (half : Nat) (B : List S2) :
+    match mergeS2 half B with
+    | .ok out =>
+      (B.length ≤ half → out = B) ∧
+      (half < B.length →
+        (out.map S2.key).Nodup ∧ out.map S2.key = firstOcc (B.map S2.key) ∧
+        (∀ c ∈ out, c.r = sumR c.key B) ∧ (∀ c ∈ out, ∀ d ∈ B, d.key = c.key → d.phi = c.phi))
+    | .error e => e = .circuit ∧ half < B.length ∧ ∃ c ∈ B, ∃ d ∈ B, c.key = d.key ∧ c.phi ≠ d.phi :=
+  mergeS2_spec half B
+
+/-- two squeezers on each of two pairs, interleaved (the input on which the unrepaired loop used stale
+positions), and a phase clash -/
+example : (mergeS2 2 [⟨0, 2, 1/2, 0⟩, ⟨1, 3, 1/4, 0⟩, ⟨0, 2, 1/8, 0⟩, ⟨1, 3, 1/2, 0⟩]).toOption
+      = some [⟨0, 2, 5/8, 0⟩, ⟨1, 3, 3/4, 0⟩] ∧
+    (match mergeS2 2 [⟨1, 3, 1/2, 0⟩, ⟨1, 3, 1/2, 0⟩, ⟨0, 2, 1/4, 0⟩, ⟨0, 2, 1/4, 1/2⟩] with
+      | .error e => decide (e = .circuit) | .ok _ => false) = true := by
+  decide +kernel
+
+/-- one pass of the loop body is the functional merge: the group's commands are removed, the merged
+command sits where the first of them was (refinement of the index surgery, for every list and pair) -/
+theorem s2_merge_one_refines (B : List S2) (k : Key) (h : k ∈ B.map S2.key) :
+    mergeOne B (k, positions k (B.map S2.key)) =
+      match accLoop (B.filter (fun c => c.key = k)).reverse 0 0 0 with
+      | .ok (r, phi) => .ok (mergeAt k ⟨k.1, k.2, r, phi⟩ B)
+      | .error e => .error e :=
+  mergeOne_spec B k h
+
+example : (0, 2) ∈ ([⟨1, 3, 1, 0⟩, ⟨0, 2, 1/2, 0⟩, ⟨0, 2, 1/4, 0⟩] : List S2).map S2.key := by decide +kernel
 
 /-! ## Borealis: loop-offset insertion -/
 
